@@ -5,6 +5,14 @@ V = os.path.dirname(os.path.dirname(os.path.abspath(__file__)))
 TRUST = ("TLA+ models are bounded (constants in spec/*.cfg); cryptography is symbolic / algebraic-group-model over small prime fields "
          "(assumptions A1-A4 in DESIGN.md section 8); bls12_381, sha3, bincode, serde and the harness's independent relation evaluator are trusted")
 CHECKS = {
+ "C01": ("model_checking", "TLC on ProofGame.tla (2-special soundness per constraint cluster, hashed sets observed from the code) + adversarial establish prover validated by TLC",
+         "the challenge-recorder hook is used to OBSERVE which non-response atoms of an establish proof the merchant hashes; TLC decides Sound/Dichotomy/Complete of every cluster of "
+         "EstablishProof::verify for exactly those hashed sets; ~200 forger strategies (slot x side x lie x {lying, unlinked, late revealed scalar, simulated T, simulated C}) are executed "
+         "against merchant::Config::initialize and TLC validates each verdict against the independently evaluated relations, the game model and the truth of the statement; on acceptance the "
+         "returned signatures are unblinded and checked on the hidden tuples", "6 C01"),
+ "C02": ("model_checking", "TLC on ProofGame.tla (clusters of PayProof::verify incl. range link) + adversarial pay prover on real pay tokens validated by TLC",
+         "as C01 for PayProof / allow_payment: every false variant of the statement (wrong nonce, wrong amount, out-of-range balances, foreign channel id, close tag replaced, mismatched old/new lock, "
+         "foreign or tampered pay token, identity signature via chosen randomness) x method; TLC decides Sound incl. the range link cluster and validates every real verdict", "6 C02"),
  "C03": ("model_checking", "TLC on ZkAbacus.tla + trace validation of fault-injected real runs",
          "TLC model-checks ZkAbacus.tla (CanClose, RefusedIsInert, ReleaseOnlyOnAccept, ClosedOnUnrevoked, FaultRefused, ReplayRefused) exhaustively within small bounds; "
          "TLC simulation walks of the same spec and a weighted random driver are replayed into the real customer/merchant with every fault kind at every reply point, "
